@@ -457,9 +457,10 @@ Definition want_oracle (m : cl_mon) (ann : list sx) (o : cobs) : cl_mon :=
   | None => m
   end.
 
-Definition cl_ostep (lmtp : bool) (m : cl_mon) (k : call) (ann : list sx) (o : cobs) : cl_mon :=
-  (* C10: nothing in plaintext after an accepted STARTTLS *)
-  let m := if m_tls m then addv m (match ob_chunks o with [] => true | _ => false end) "C10" else m in
+Definition cl_ostep (tlsok lmtp : bool) (m : cl_mon) (k : call) (ann : list sx) (o : cobs) : cl_mon :=
+  (* C10: nothing in plaintext after an accepted STARTTLS ([tlsok]: the scripted server completed a real
+     handshake and the recorded octets are what it decrypted, i.e. they were sent inside TLS) *)
+  let m := if m_tls m && negb tlsok then addv m (match ob_chunks o with [] => true | _ => false end) "C10" else m in
   let m := addv m (c15_call (m_dirty m) k ann o) "C15" in
   let m := want_oracle m ann o in
   let ok := res_is_nil (ob_r o) in
@@ -485,9 +486,9 @@ Definition cl_ostep (lmtp : bool) (m : cl_mon) (k : call) (ann : list sx) (o : c
   | _ => m
   end.
 
-Fixpoint cl_orun (lmtp : bool) (m : cl_mon) (ks : list (call * list sx)) (os : list cobs) : cl_mon :=
+Fixpoint cl_orun (tlsok lmtp : bool) (m : cl_mon) (ks : list (call * list sx)) (os : list cobs) : cl_mon :=
   match ks, os with
-  | (k, ann) :: ks', o :: os' => cl_orun lmtp (cl_ostep lmtp m k ann o) ks' os'
+  | (k, ann) :: ks', o :: os' => cl_orun tlsok lmtp (cl_ostep tlsok lmtp m k ann o) ks' os'
   | _, _ => m
   end.
 
@@ -529,9 +530,11 @@ Definition check_cli (args : list sx) : verdict :=
       | Some lmtp, Some stream, Some ks, Some os =>
           if negb (Nat.eqb (List.length ks) (List.length os)) then bad_case
           else
-            let model := replay (new_client lmtp stream None) (map fst ks) in
+            let tls := match assoc1 "tlsstream" args with Some x => sx_bytes x | None => None end in
+            let tlsok := match tls with Some _ => true | None => false end in
+            let model := replay (new_client lmtp stream tls) (map fst ks) in
             let agree := sx_list_eqb model (map norm_obs os) in
-            let m := cl_orun lmtp (mkCM false false false [] false []) ks os in
+            let m := cl_orun tlsok lmtp (mkCM false false false [] false []) ks os in
             mkV true agree (SL model) (dedup_b (m_viol m)) []
                 (dedup_b ([focus; if lmtp then bs "lmtp" else bs "smtp"]
                           ++ map (fun p => call_tag (fst p)) ks
